@@ -384,12 +384,14 @@ def to_events(inp, runs):
     evs = [{"e": "Reset", "id": inp["idx"]}, {"e": "Input", "feat": {"utf16": feat["utf16"], "srcbase": feat["srcbase"], "method": feat["method"]}}]
     for r in runs:
         ok = r["status"] == 0
+        digest = ""
         if "tree" in r:
             tree, nbytes = (canon_walked(r["tree"]) if ok else []), 0
         else:
             data = bytes.fromhex(r["bytes"])
             tree, nbytes = (canon_bytes(data, feat) if ok else []), len(data)
-        evs.append({"e": "Run", "cfg": r["cfg"], "via": r["via"], "ok": ok, "status": r["status"], "msg": r["msg"][:200], "tree": tree,
+            digest = hashlib.sha1(data).hexdigest()[:16] if ok else ""          # forms that write BYTES: equal trees must be written alike
+        evs.append({"e": "Run", "cfg": r["cfg"], "via": r["via"], "ok": ok, "status": r["status"], "msg": r["msg"][:200], "tree": tree, "digest": digest,
                     "wlog": r["wlog"], "nbytes": nbytes, "short": r["short"], "ctrl": r["ctrl"], "k": r["k"]})
     return evs
 
